@@ -3,6 +3,7 @@ C15 — snapshot + restore is the identity on the larger model too.
 -/
 import OG.C15.Snapshot2
 import OG.C15.Props
+import OG.C16.Props5
 
 namespace OG.C15
 open OG.Meta
@@ -54,5 +55,22 @@ theorem restore2_snapshot2_id (d : Data2) (h : KeysAreNames d.base) (hr : InRang
   unfold restore2 snapshot2
   simp only
   rw [restore_snapshot_id d.base h hr, maskExt_id allModel2_clone, maskExt_id allModel2_marshal, maskExt_id allModel2_unmarshal]
+
+/-- … on every reachable state of the larger model (38 command types) whose group boundaries fit
+the int64 range -/
+theorem snapshot2_restore2_id (log : List Cmd2) (hr : InRange (applyAll2 Data2.init log).base) :
+    restore2 (snapshot2 (applyAll2 Data2.init log)) = applyAll2 Data2.init log :=
+  restore2_snapshot2_id _ (OG.C16.reachable2_keysAreNames log) hr
+
+/-- **T2′** snapshot at any position of a log of the larger model, restore, replay the rest:
+same catalogue as replaying everything — streams, subscriptions, continuous queries, the two
+switches and the change counters included. -/
+theorem snapshot_anywhere2 (log : List Cmd2) (i : Nat) (hr : InRange (applyAll2 Data2.init (log.take i)).base) :
+    applyAll2 (restore2 (snapshot2 (applyAll2 Data2.init (log.take i)))) (log.drop i) = applyAll2 Data2.init log := by
+  rw [snapshot2_restore2_id _ hr, ← OG.C16.applyAll2_append, List.take_append_drop]
+
+/-- non-vacuity: the demo log of OG/C16/Props5.lean (ExpandGroups, a stream, a subscription, a
+continuous query) is in range, and its state is not the initial one -/
+example : InRange (applyAll2 Data2.init OG.C16.demoLog2).base ∧ (applyAll2 Data2.init OG.C16.demoLog2).ext.subs ≠ [] := by decide +kernel
 
 end OG.C15
